@@ -130,7 +130,7 @@ void run_case(ByteSource& s, CaseInfo& ci) {
       case 8: xi = B.x.front() - (fabs(B.x.front()) + 1) * (1 + 5 * s.unif01()); break;
       case 9: xi = ByteSource::ulp_step(B.x.back(), 1); break;
       case 10: xi = B.x.back() + (fabs(B.x.back()) + 1) * (1 + 5 * s.unif01()); break;
-      case 11: xi = s.flag() ? INFINITY : -INFINITY; break;
+      case 11: { unsigned w = s.choose(3); xi = w == 0 ? INFINITY : w == 1 ? -INFINITY : std::nan(""); if (w == 2) ci.label("x-nan"); break; }  // NaN is in no interval: reported, not answered
       default: xi = B.last_x; break;  // the same x as the previous query on this solver
     }
     B.last_x = xi;
@@ -148,7 +148,7 @@ void run_case(ByteSource& s, CaseInfo& ci) {
         total++;
         bool threw = false;
         try { f(); } catch (const std::exception&) { threw = true; }
-        CHECK(threw, fmt("C05|%s|outside-range-answered|%s", what, xi < B.x.front() ? "below" : "above"), "%s", ctx.c_str());
+        CHECK(threw, fmt("C05|%s|outside-range-answered|%s", what, xi != xi ? "nan" : xi < B.x.front() ? "below" : "above"), "%s", ctx.c_str());
         raised++;
       };
       expect_throw([&] { SU_vector r = S.GetIntermediateState(ir, xi); (void)r; }, "GetIntermediateState");
@@ -297,7 +297,7 @@ void regressions() {
   SU_vector O(2); O[1] = 1;
   std::vector<bool> avr(1);
   squids::SQuIDS::expectationValueDBuffer ub(2);
-  for (double x : {-4.9406564584124654e-324, -1.0, -(double)INFINITY}) {
+  for (double x : {-4.9406564584124654e-324, -1.0, -(double)INFINITY, (double)NAN}) {  // (NaN: ea43bba)
     int raised = 0;
     try { SU_vector r = S.GetIntermediateState(0, x); (void)r; } catch (const std::exception&) { raised++; }
     try { S.GetExpectationValueD(O, 0, x); } catch (const std::exception&) { raised++; }
